@@ -79,7 +79,7 @@ def file_class(ns, sub):
     return _SUB[ns]
 
 
-def call(iface, path, chunk, method, headers, resp=None, sub=False, via=None):
+def call(iface, path, chunk, method, headers, resp=None, sub=False, via=None, slow_send=0.0):
     """via='view': the response is what a request_response view returns; via='file_wrapper': the WSGI server offers wsgi.file_wrapper"""
     from baize import asgi, wsgi
     ctype_arg = CTYPES.get(os.path.splitext(path)[1])
@@ -104,7 +104,7 @@ def call(iface, path, chunk, method, headers, resp=None, sub=False, via=None):
         async def view(request, resp=resp):
             return resp
         app = asgi.request_response(view)
-    r = drivers.run_asgi(app, drivers.to_scope(req))
+    r = drivers.run_asgi(app, drivers.to_scope(req), slow_send=slow_send)
     return r, r.status, drivers.norm_headers_asgi(r.headers), r.body
 
 
@@ -151,9 +151,18 @@ def execute(ctx, env, case, resp=None):
     fam = "wsgi" if iface == "wsgi" else "asgi"
     BOUNDARY_SEED[0] += 1
     try:
-        r, status, hdrs, body = call(iface, path, chunk, method, headers, resp, sub=sub, via=via)
+        # one ASGI case in eight is read by a slow client: every send() takes 2 ms (longer than a thread-pool hop) and at most 6 body events
+        slow = 0.002 if fam == "asgi" and BOUNDARY_SEED[0] % 8 == 0 and size <= 6 * chunk else 0.0
+        if slow:
+            case = dict(case, slow_client=True)
+        r, status, hdrs, body = call(iface, path, chunk, method, headers, resp, sub=sub, via=via, slow_send=slow)
     except drivers.HarnessError:
         raise
+    if fam == "asgi":
+        ctx.mon("returned-with-no-send-pending")
+        if r.pending_sends_at_return:
+            ctx.violation("asgi-call-returned-while-a-send-was-still-pending", case, f"{r.pending_sends_at_return} send() call(s) had not returned when the application returned (the server may take the response for complete)")
+            return
     if r.exc is not None:
         if isinstance(r.exc, contracts.RangeContractBroken):
             ctx.violation("inherits-C03|non-canonical-ranges", case, contracts.FAILS[-1][1] if contracts.FAILS else "")
